@@ -170,6 +170,24 @@ def standin_logging(tier, seed):
                     violations.append(dict(key=f"fit result changes with logging ({label})"))
                 if len(samples) < 2:
                     samples.append(dict(logging=label))
+        # with annealing on (the temperature schedule is part of the algorithm, not of its logging)
+        ann = dict(annealing=dict(do_annealing=True, initial_temperature=10.0, n_plateau=4))
+        ref_a = params_of(fit_once(kind, kw, df, seed, 24, **ann))
+        for q3, lg in enumerate([dict(save_periodicity=6), dict(print_periodicity=5), dict(save_periodicity=4, plot_periodicity=8)]):
+            for with_path in (False, True):
+                if with_path:
+                    lg = dict(lg, path=os.path.join(tmp, f"logs_ann_{q3}"), overwrite_logs_folder=True)
+                label = "annealing on, " + ", ".join(f"{k}={v}" for k, v in lg.items() if k not in ("path", "overwrite_logs_folder")) + \
+                    (" with an output path" if with_path else " without an output path")
+                evals += 1
+                distinct.add(label)
+                try:
+                    m = fit_once(kind, kw, df, seed, 24, **ann, **lg)
+                except Exception as e:
+                    violations.append(dict(key=f"fit aborted with logging ({label}): {type(e).__name__}: {str(e)[:90]}"))
+                    continue
+                if not same_params(ref_a, params_of(m)):
+                    violations.append(dict(key=f"fit result changes with logging ({label})"))
         # the other model shapes (one source, no source, one feature, shared speed): everything switched on
         other_kinds = [("logistic", dict(source_dimension=1, dimension=3), 3), ("logistic", dict(source_dimension=0, dimension=3), 3),
                        ("logistic", dict(dimension=1, source_dimension=0), 1), ("linear", dict(source_dimension=1, dimension=3), 3),
